@@ -209,6 +209,59 @@ def run_apply(inst, var="tas"):
             np.seterr(**old)
 
 
+BOUND_FIELDS = {"lower_bound", "lower_threshold", "upper_bound", "upper_threshold"}
+
+
+def touch(inst):
+    """read every has_* property and every derived attribute (what an earlier look at the instance does)"""
+    seen = []
+    for n in ("has_lower_threshold", "has_lower_bound", "has_upper_threshold", "has_upper_bound", "has_bound", "has_threshold",
+              "running_window", "running_window_over_years_of_cm_future", "cdf_threshold"):
+        try:
+            seen.append(getattr(inst, n))
+        except AttributeError:
+            pass
+    return len(seen)
+
+
+def same_result(ra, rb):
+    return (ra[0] == rb[0]) and (np.array_equal(ra[1], rb[1], equal_nan=True) if ra[0] == "ok" else ra[1] == rb[1])
+
+
+def sequence_case(make, assignments, var, first, ra=None):
+    """ONE instance: `first` ('apply' = a full apply, 'read' = read has_* / derived attributes), THEN the assignments, then apply;
+    compared with a freshly constructed instance carrying the settings. -> (equal?, constructed result, sequence result)"""
+    if ra is None:
+        A, errA = make(dict(assignments))
+        ra = ("error", errA) if A is None else run_apply(A, var)
+    S, errS = make({})
+    if S is None:
+        return True, ra, ("error", errS)  # the base itself is invalid: nothing to compare
+    touch(S)
+    if first == "apply":
+        run_apply(S, var)
+    err = None
+    try:
+        with warnings.catch_warnings():
+            warnings.simplefilter("ignore")
+            for k, v in assignments:
+                setattr(S, k, v)
+    except Exception as ex:  # noqa: BLE001
+        err = type(ex).__name__
+    rs = ("error", err) if err else run_apply(S, var)
+    return same_result(ra, rs), ra, rs
+
+
+def show(r):
+    return "ok" if r[0] == "ok" else r
+
+
+def diff_detail(ra, rb):
+    if ra[0] == rb[0] == "ok" and ra[1].shape == rb[1].shape:
+        return f"max |diff| = {float(np.nanmax(np.abs(ra[1] - rb[1]))):.3g}"
+    return f"constructed: {show(ra)}, sequence: {show(rb)}"
+
+
 def variables_for(name, tier):
     """tas always; pr too (QuantileDeltaMapping's censored-gamma fits are slow: thorough tier only)"""
     if tier == "thorough" or name != "QuantileDeltaMapping":
@@ -443,6 +496,16 @@ def run(tier, res, force_search=False):
                     detail = (f"max |diff| = {float(np.nanmax(np.abs(ra[1] - rb[1]))):.3g}" if ra[0] == rb[0] == "ok" and ra[1].shape == rb[1].shape
                               else f"constructed: {ra if ra[0] != 'ok' else 'ok'}, assigned: {rb if rb[0] != 'ok' else 'ok'}")
                     problems.append((f"{fname}={x!r} assigned before apply differs from {fname}={x!r} at construction ({detail})", case, {"what": "assign_ne_construct"}))
+                # (d) as a SEQUENCE on one instance: apply (or inspect) first, then assign, then apply — state cached by an
+                # earlier run / an earlier look must not survive the assignment
+                if fname in WINDOW_FIELDS or fname in BOUND_FIELDS:
+                    for first in ("apply", "read"):
+                        ok_seq, _, rs = sequence_case(lambda extra: construct(cls, {**base_kw, **extra}, var), [(fname, x)], var, first, ra=ra)
+                        res.count((name, var, fname, "sequence", first), True)
+                        if not ok_seq:
+                            problems.append((f"{first} first, then {fname}={x!r} assigned, then apply differs from {fname}={x!r} at construction "
+                                             f"({diff_detail(ra, rs)})", {**case, "sequence": [first, f"assign {fname}", "apply"]},
+                                             {"what": "sequence_assign_ne_construct"}))
                 # model: post-init outcome and derived attributes after the assignment
                 if fname in WINDOW_FIELDS and errB is None and (rb[0] == "ok" or rb[1] in ("ValueError", "TypeError", "AttributeError")):
                     line = f"apply {name} 1 {fields_line(base, rule_fields)} {fname}={enc(x)}"
@@ -527,6 +590,33 @@ def run(tier, res, force_search=False):
         q("isimipdefaults", "isimipdefaults", case, ";".join(f"{b}={str(getattr(iso, b)).replace('inf', 'inf')}" for b in ("lower_bound", "lower_threshold", "upper_bound", "upper_threshold")))
     except Exception as ex:  # noqa: BLE001
         problems.append((f"ISIMIP cannot be built without bounds: {type(ex).__name__}: {str(ex)[:100]}", case, {"what": "isimip_unbounded"}))
+    # ISIMIP bounds as a sequence: built without bounds -> used -> bounds assigned; built with bounds (pr) -> used -> bounds removed
+    pr_like = dict(distribution=scipy.stats.gamma, trend_preservation_method="mixed", detrending=False, nonparametric_qm=False, running_window_mode=False)
+
+    def make_direct(extra):
+        with warnings.catch_warnings():
+            warnings.simplefilter("ignore")
+            try:
+                return D.ISIMIP(**{**pr_like, **extra}), None
+            except Exception as ex:  # noqa: BLE001
+                return None, type(ex).__name__
+
+    def make_pr(extra):
+        return construct(D.ISIMIP, {"running_window_step_length": 31, **extra}, "pr")
+
+    seqs = [("ISIMIP(distribution=gamma, trend_preservation_method='mixed', detrending=False, nonparametric_qm=False, running_window_mode=False)",
+             make_direct, [("lower_bound", 0.0), ("lower_threshold", 2.0 ** -20)]),
+            ("ISIMIP.from_variable('pr', running_window_step_length=31)", make_pr, [("lower_bound", -np.inf), ("lower_threshold", -np.inf)]),
+            ("ISIMIP.from_variable('pr', running_window_step_length=31)", make_pr, [("upper_bound", 2.0 ** -10), ("upper_threshold", 2.0 ** -11)])]
+    for ctor, make, asg in seqs:
+        for first in ("apply", "read"):
+            ok_seq, ra, rs = sequence_case(make, asg, "pr", first)
+            scase = {"debiaser": "ISIMIP", "constructor": ctor, "variable": "pr", "sequence": [first] + [f"assign {k}={v}" for k, v in asg] + ["apply"],
+                     "setting": asg[0][0], "value": asg[0][1]}
+            res.count(("ISIMIP", "bound sequence", ctor[:20], asg[0][0], first), True, sample={**scase, "constructed": show(ra), "sequence_result": show(rs)})
+            if not ok_seq:
+                problems.append((f"{ctor}: {first} first, then {', '.join(f'{k}={v}' for k, v in asg)} assigned, then apply differs from an instance constructed "
+                                 f"with these settings ({diff_detail(ra, rs)})", scase, {"what": "sequence_assign_ne_construct"}))
     # has_* correspondence on random bound quadruples
     n_has = 40 if tier == "quick" else 600
     pool = [-np.inf, np.inf, 0.0, 1.0, -3.5, 100.0, 0.0001]
@@ -614,6 +704,12 @@ def replay(data):
     print("replaying", what, fi)
     if "argument" in fi and isinstance(fi["argument"], str) and not fi["argument"].startswith("ibicus.variables."):
         print("from_variable outcome:", outcome_from_variable(cls, fi["argument"])[0])
+    elif what == "sequence_assign_ne_construct" and isinstance(fi.get("base_kwargs"), dict):
+        var = fi.get("variable", "tas")
+        base_kw = base_kwargs(fi["debiaser"], var)
+        ok_seq, ra, rs = sequence_case(lambda extra: construct(cls, {**base_kw, **extra}, var), [(fi["setting"], fi["value"])], var, fi["sequence"][0])
+        print("constructed:", show(ra), "sequence:", show(rs), "equal:", ok_seq)
+        return 0 if ok_seq else 1
     elif "setting" in fi and what == "assign_ne_construct":
         base_kw = base_kwargs(fi["debiaser"])
         f = {"name": fi["setting"]}
